@@ -9,7 +9,7 @@ VERIF = os.path.dirname(os.path.dirname(os.path.abspath(__file__)))
 SPEC = os.path.join(VERIF, "spec")
 HARNESS = os.path.join(VERIF, "harness")
 VH = os.path.join(HARNESS, "target", "debug", "vh")
-REPO = "/repo"
+REPO = os.environ.get("VERIF_REPO", "/repo")      # background exploration runs (vp run --with-repo) may point at a snapshot of /repo
 NCPU = os.cpu_count() or 4
 
 
@@ -51,6 +51,12 @@ def run(cmd, timeout=None, env=None, cwd=None, capture=True):
 def build_harness():
     """Always rebuilds against /repo's current working tree (path dependency)."""
     t = time.time()
+    if REPO != "/repo":
+        # only ever done in a snapshot of /verif used for a background run: registered checks always build against /repo itself
+        ct = os.path.join(HARNESS, "Cargo.toml")
+        txt = open(ct).read()
+        if 'path = "/repo"' in txt:
+            open(ct, "w").write(txt.replace('path = "/repo"', 'path = "%s"' % REPO))
     lock = os.path.join(HARNESS, "Cargo.lock")
     if not os.path.exists(lock):
         shutil.copy(os.path.join(REPO, "Cargo.lock"), lock)
